@@ -414,6 +414,10 @@ class Coordinator(object):
             self.stop(errback_result=result)
             return
 
+        if self._stopping:
+            # stop() is leaving the group: there is nothing to rejoin
+            return
+
         self._state = "[rejoin_needed]"
         self._rejoin_needed = True
         if not self._rejoin_wait_dc:
